@@ -74,26 +74,45 @@ def build_coq(clean=False):
     return rc == 0, out
 
 
+def strip_coq_comments(text):
+    """removes (nested) Coq comments, keeping newlines so that line numbers stay valid"""
+    out, depth, i, n = [], 0, 0, len(text)
+    in_str = False
+    while i < n:
+        c2 = text[i:i + 2]
+        if depth == 0 and text[i] == '"':
+            in_str = not in_str
+            out.append(text[i]); i += 1
+        elif not in_str and c2 == '(*':
+            depth += 1; i += 2
+        elif not in_str and c2 == '*)' and depth > 0:
+            depth -= 1; i += 2
+        else:
+            out.append(text[i] if depth == 0 or text[i] == '\n' else ' ')
+            i += 1
+    return ''.join(out)
+
+
 def forbidden_scan():
-    """No Admitted/admit/Axiom/Parameter/... anywhere; Variable/Hypothesis only inside Sections."""
+    """No Admitted/admit/Axiom/Parameter/... anywhere; Variable/Hypothesis/Context only inside Sections."""
     bad = []
-    pat = re.compile(r'\b(Admitted|admit|Axiom|Axioms|Parameter|Parameters|Conjecture|Admit Obligations|bypass_check|'
+    pat = re.compile(r'\b(Admitted|admit|Axiom|Axioms|Parameter|Parameters|Conjecture|Conjectures|Admit Obligations|bypass_check|'
                      r'Unset Guard Checking|Unset Positivity Checking|Unset Universe Checking|type-in-type|impredicative-set)\b')
     for rel in coq_sources() + ['Extract/Extract.v', '_CoqProject']:
         depth = 0
         path = os.path.join(COQ, rel)
         if not os.path.exists(path):
             continue
-        for n, line in enumerate(open(path), 1):
-            code = re.sub(r'\(\*.*?\*\)', '', line)
+        code_text = strip_coq_comments(open(path).read())
+        for n, code in enumerate(code_text.split('\n'), 1):
             if re.match(r'\s*Section\b', code):
                 depth += 1
             if re.match(r'\s*End\b', code) and depth > 0:
                 depth -= 1
             if pat.search(code):
-                bad.append('%s:%d: %s' % (rel, n, line.strip()))
+                bad.append('%s:%d: %s' % (rel, n, code.strip()))
             if depth == 0 and re.match(r'\s*(Variable|Variables|Hypothesis|Hypotheses|Context)\b', code):
-                bad.append('%s:%d: %s (outside a Section)' % (rel, n, line.strip()))
+                bad.append('%s:%d: %s (outside a Section)' % (rel, n, code.strip()))
     return bad
 
 
